@@ -529,7 +529,7 @@ theorem torch_outputs (o : TOpts) (lines : List MapLine) (hm : MapLine.malformed
     exact hok u hu.1 hu.2
 
 /-- **torch_listed_untouched** — whatever happens (errors included), no utterance listed in the manifest
-is written, every written utterance is in the map, and no utterance is written twice. -/
+is written, and every written utterance is an utterance of the map. -/
 theorem torch_listed_untouched (o : TOpts) (lines : List MapLine) :
     (∀ s ∈ (torchRun o lines).written, s.id ∉ manifestIds o ∧ s.id ∈ (entries lines).map (·.id)) := by
   unfold torchRun
